@@ -61,6 +61,11 @@ type Batch struct {
 	// relative to the first inner message (the KIP-31 layout: 0..n-1, or with
 	// gaps after compaction); false: they carry absolute offsets.
 	RelativeInner bool
+	// ZstdWindow (encoding, zstd only): compress with a streaming encoder
+	// configured for this window instead of the one-shot encoder. Once the
+	// payload exceeds one 128 KiB block the frame header announces the full
+	// window, as frames from producers running high compression levels do.
+	ZstdWindow int
 }
 
 // DecodeOpts controls DecodeRecordSet.
@@ -75,7 +80,8 @@ type DecodeOpts struct {
 type EncodeOpts struct {
 	// SnappyRaw: emit a raw snappy block instead of the xerial framing that
 	// Kafka producers emit.
-	SnappyRaw bool
+	SnappyRaw  bool
+	zstdWindow int
 }
 
 // Codec numbers.
@@ -205,6 +211,20 @@ func compressData(codec int8, data []byte, o EncodeOpts) ([]byte, error) {
 		}
 		return buf.Bytes(), nil
 	case CodecZstd:
+		if o.zstdWindow > 0 {
+			var buf bytes.Buffer
+			enc, err := zstd.NewWriter(&buf, zstd.WithEncoderConcurrency(1), zstd.WithWindowSize(o.zstdWindow))
+			if err != nil {
+				return nil, err
+			}
+			if _, err := enc.Write(data); err != nil {
+				return nil, err
+			}
+			if err := enc.Close(); err != nil {
+				return nil, err
+			}
+			return buf.Bytes(), nil
+		}
 		// A fresh single-threaded encoder per call: no shared goroutines/pools.
 		enc, err := zstd.NewWriter(nil, zstd.WithEncoderConcurrency(1), zstd.WithLowerEncoderMem(true),
 			zstd.WithWindowSize(1<<20))
@@ -772,6 +792,7 @@ func encodeLegacy(b Batch, o EncodeOpts) ([]byte, []LenField, error) {
 			maxTS = ts(r)
 		}
 	}
+	o.zstdWindow = b.ZstdWindow
 	comp, err := compressData(b.Codec, inner, o)
 	if err != nil {
 		return nil, nil, err
@@ -901,6 +922,7 @@ func encodeBatchV2(b Batch, o EncodeOpts) ([]byte, []LenField, error) {
 			lens[i].Off += v2HeaderSize
 		}
 	} else {
+		o.zstdWindow = b.ZstdWindow
 		comp, err := compressData(b.Codec, body, o)
 		if err != nil {
 			return nil, nil, err
